@@ -108,6 +108,22 @@ let run_equal (id : string) (fields : t list) : string =
   let need = String.concat "" (List.map (fun (a, b) -> if M.hash_stream a = M.hash_stream b then "T" else "?") pairs) in
   Printf.sprintf "%s eq=%s spec_eq=%s model_law=%s model_hashneed=%s" id eq sp (tf all_streams_eq) need
 
+(* family uri: Parse / ResolveReference / String / Fragment / IsAbs *)
+let run_uri (id : string) (fields : t list) : string =
+  let base = str_of_sexp (field1 "base" fields) and r = str_of_sexp (field1 "ref" fields) in
+  let pb = match base with [] -> M.POk M.empty_uri | _ -> M.parse_uri base in
+  match pb with
+  | M.PErr -> id ^ " pb=err"
+  | M.PUnsupported -> id ^ " pb=unsupported"
+  | M.POk b ->
+      (match M.parse_uri r with
+       | M.PErr -> id ^ " pb=ok pr=err"
+       | M.PUnsupported -> id ^ " pb=ok pr=unsupported"
+       | M.POk ru ->
+           let u = M.resolve_reference b ru in
+           Printf.sprintf "%s pb=ok pr=ok str=%s frag=%s abs=%d" id (ints_of_str (M.uri_string (M.drop_frag u)))
+             (ints_of_str u.M.u_frag) (if M.is_abs u then 1 else 0))
+
 let () =
   let family = Sys.argv.(1) in
   let ic = open_in Sys.argv.(2) in
@@ -123,6 +139,7 @@ let () =
                  | "val" -> run_val id fields
                  | "marshal" -> run_marshal id fields
                  | "equal" -> run_equal id fields
+                 | "uri" -> run_uri id fields
                  | f -> failwith ("unknown family " ^ f))
             | _ -> failwith "case expected"
           with Failure m -> "DRIVER-ERROR " ^ m
